@@ -13,12 +13,26 @@ _gen_re = re.compile(r"::<[^<>]*>")
 _lt_re = re.compile(r"(?:::)?<'[A-Za-z_0-9]+(?:, ?'[A-Za-z_0-9]+)*>")
 
 
+_impl_re = re.compile(r"::<impl ([^<>]*)>")
+
+
+def _impl_sub(m):
+    inner = m.group(1)
+    if " for " in inner:
+        inner = inner.split(" for ", 1)[1]
+    inner = inner.strip().lstrip("&")
+    return "::" + inner.split("::")[-1]
+
+
 def norm(path):
     """Strip generic argument lists `::<..>` (nested) and lifetimes from a def path."""
     if path is None:
         return None
     prev = None
     p = _lt_re.sub("", path)
+    # `::<impl some::path::Type>::f` -> `::Type::f`   (keeps inherent impls in other modules unambiguous)
+    if p.startswith("oq3_"):
+        p = _impl_re.sub(_impl_sub, p)
     while prev != p:
         prev = p
         p = _gen_re.sub("", p)
